@@ -19,11 +19,12 @@ pub struct Case {
     pub systematic: bool,
 }
 
-fn compare(c: &Case, sched: &Schedule, slices: bool, pass: &mut Pass) -> Result<(), Violation> {
+fn compare(c: &Case, sched: &Schedule, api_sel: u64, pass: &mut Pass) -> Result<(), Violation> {
+    let slices = api_sel;
     let filter = filter_for(c.filter);
     let reference = reference(&c.stream, c.storage, filter.as_ref(), slices);
     let (got, trace) = drive_blocking(&c.stream, c.storage, sched, c.reader_kind, filter.as_ref(), slices);
-    let api = if slices { "next_message_slice" } else { "read_message" };
+    let api = if slices == API_SLICE { "next_message_slice" } else if slices == API_MESSAGE { "read_message" } else { "alternating" };
     let ctx = || format!("storage={} reader_kind={} filter={} schedule={:?} stream={}", c.storage, c.reader_kind, c.filter, sched, hex_short(&c.stream));
     for o in &got {
         match o {
@@ -67,7 +68,7 @@ fn compare(c: &Case, sched: &Schedule, slices: bool, pass: &mut Pass) -> Result<
     if msgs >= 2 && (splits_header || trace.stalls > 0) {
         pass.nontrivial = true;
     }
-    pass.classes.push(if slices { "api:next_message_slice" } else { "api:read_message" });
+    pass.classes.push(if slices == API_SLICE { "api:next_message_slice" } else if slices == API_MESSAGE { "api:read_message" } else { "api:alternating-entry-points" });
     if splits_header {
         pass.classes.push("schedule-splits-a-header");
     }
@@ -95,12 +96,15 @@ fn compare(c: &Case, sched: &Schedule, slices: bool, pass: &mut Pass) -> Result<
 
 pub fn check(c: &Case) -> CheckResult {
     let mut pass = Pass::new(false);
-    compare(c, &c.schedule, false, &mut pass)?;
-    compare(c, &c.schedule, true, &mut pass)?;
+    compare(c, &c.schedule, API_MESSAGE, &mut pass)?;
+    compare(c, &c.schedule, API_SLICE, &mut pass)?;
+    // both entry points alternately on the same reader (pattern derived from the case)
+    let mix = crate::util::splitmix64(c.stream.len() as u64 ^ ((c.filter as u64) << 32) ^ c.schedule.steps.len() as u64) | 2;
+    compare(c, &c.schedule, mix & !1, &mut pass)?;
     if c.systematic && c.stream.len() <= 400 {
         for chunk in 1..=64u16 {
             for stall in [false, true] {
-                compare(c, &Schedule::constant(chunk, stall), false, &mut pass)?;
+                compare(c, &Schedule::constant(chunk, stall), API_MESSAGE, &mut pass)?;
             }
         }
         pass.classes.push("systematic-schedules");
